@@ -427,7 +427,16 @@ def _r5_sizes(repo, rep, cls):
         return True
 
     branches = 0
+    # an if / elif chain is a sequence of exclusive branches
+    flat_body = []
     for st in body:
+        flat_body.append(st)
+        cur = st
+        while isinstance(cur, ast.If) and len(cur.orelse) == 1 and \
+                isinstance(cur.orelse[0], ast.If):
+            cur = cur.orelse[0]
+            flat_body.append(cur)
+    for st in flat_body:
         if st is loop_st:
             break
         if isinstance(st, ast.If) and isinstance(st.test, ast.Compare) and \
